@@ -340,8 +340,23 @@ pub fn offered_sets(kind: Kind) -> Vec<u64> {
 }
 
 pub fn run_case(kind: Kind, tkind: TKind, wrap_some: bool, offered: u64) -> Out {
+    run_case_quirk(kind, tkind, wrap_some, offered, 0)
+}
+
+/// `quirk`: 0 = none; 1 = the device never lets FEATURES_OK stick; 2 = its reset is slow (status
+/// reads right after a reset still return the old value). The status *writes* of the handshake are
+/// the same whatever the device answers to status reads.
+pub fn run_case_quirk(kind: Kind, tkind: TKind, wrap_some: bool, offered: u64, quirk: u8) -> Out {
     hal::reset();
     let mut w = DWorld::new(kind, tkind, offered, kind.default_config());
+    {
+        let mut d = w.dev.borrow_mut();
+        d.status_quirk = quirk;
+        if quirk == 2 {
+            // As if a previous driver had left the device running.
+            d.status = 0xf;
+        }
+    }
     w.wrap_some = wrap_some;
     let r = w.with_transport(V { offered });
     mmio::set_handler(None);
